@@ -468,6 +468,42 @@ Open Scope R_scope.
 """
 
 
+def validate_printed(texts, only, rng, stats, nval=6):
+    """Printer validation: parse the emitted Coq text back (tools/coqeval.py) and evaluate it on floats
+    against the real function."""
+    import coqeval
+    alltext = []
+    for mod, parts in texts.items():
+        alltext.append("\n".join(parts))
+    # definitions of Gen modules not regenerated in this call (cross-module calls)
+    for f in sorted(os.listdir(GEN_DIR)) if os.path.isdir(GEN_DIR) else []:
+        if f.endswith('.v') and f[:-2] not in texts and 'GENERATED by /verif/tools/gen.py' in open(os.path.join(GEN_DIR, f)).readline():
+            alltext.append(open(os.path.join(GEN_DIR, f)).read())
+    prims = dict(coqeval.BASE_PRIMS)
+    prims.update(sym.EVAL_CALLS)
+    defs = coqeval.load("\n".join(alltext), prims)
+    ev = coqeval.Evaluator(defs, prims)
+    for e in REGISTRY:
+        if only and e['module'] not in only:
+            continue
+        pnames = [p for p, _ in e['params']]
+        worst = 0.0
+        for _ in range(nval):
+            env = {p: rng.uniform(*r) for p, r in e['params']}
+            if e['domain'] is not None:
+                env = e['domain'](env, rng)
+            want = concrete_entry(e, env)
+            for k, w in want.items():
+                got = ev.call(f"{e['name']}_{k}", [float(env[p]) for p in pnames])
+                err = abs(got - w) / max(1.0, abs(w))
+                if not (err <= max(e['tol'], 1e-11)):
+                    raise TraceError(f"printed Coq text disagrees with the implementation: {e['name']}_{k} "
+                                     f"text={got!r} impl={w!r} at {env}")
+                worst = max(worst, err)
+        stats.append(dict(function=e['name'] + ' [printed text]', samples=nval, paths=0, nodes=0,
+                          max_rel_err=worst))
+
+
 def generate(seed=0, validate=True, write=True, only=None):
     """Trace everything, validate, and (re)write coq/Gen/*.v if changed.
     Returns (stats, changed files)."""
@@ -484,6 +520,8 @@ def generate(seed=0, validate=True, write=True, only=None):
         txt = ir2coq.print_function(ctx, e['name'], [p for p, _ in e['params']], paths, e['fast'])
         texts.setdefault(e['module'], []).append(
             f"(* ---- {e['name']}: {len(paths)} path(s) ---- *)\n" + txt)
+    if validate:
+        validate_printed(texts, only, rng, stats)
     changed = []
     if write:
         os.makedirs(GEN_DIR, exist_ok=True)
